@@ -5,7 +5,7 @@ from . import dump
 from .interp import Interp, Program
 from .layout import Layout
 from .mirparse import parse_mir
-from . import models_core, models_iter, models_fmt, models_coll, models_misc, models_syn  # noqa: registers models
+from . import models_core, models_iter, models_fmt, models_coll, models_misc, models_syn, models_fs  # noqa: registers models
 from .models_core import MODELS
 
 _PROGRAMS = {}
